@@ -827,6 +827,26 @@ func (h *anteH) apply(ctx sdk.Context, s cfgSpec) {
 	}
 	if s.setLists {
 		h.editListsTo(ctx, s.black, s.white)
+		if h.r.Rng.Intn(3) == 0 {
+			// … and the tokens module goes through its own genesis export / import (a restart): both lists - also a token
+			// that is on BOTH - and every registered rate come back as they were
+			before := app.TokensKeeper.GetTokenBlackWhites(ctx)
+			bs, ws := append([]string(nil), before.Blacklisted...), append([]string(nil), before.Whitelisted...)
+			sort.Strings(bs)
+			sort.Strings(ws)
+			if f := h.w.ReimportModuleInPlace(ctx, tokenstypes.ModuleName, tokenstypes.ModuleName); f != nil {
+				h.r.Count("cfg:tokens-reimport-failed")
+			} else {
+				after := app.TokensKeeper.GetTokenBlackWhites(ctx)
+				ba, wa := append([]string(nil), after.Blacklisted...), append([]string(nil), after.Whitelisted...)
+				sort.Strings(ba)
+				sort.Strings(wa)
+				h.r.Count("oracle:C14/config/freeze-lists-after-restart")
+				if strings.Join(bs, ",") != strings.Join(ba, ",") || strings.Join(ws, ",") != strings.Join(wa, ",") {
+					h.r.Fail("C14/config/freeze-lists-changed-by-genesis-round-trip", fmt.Sprintf("blacklist %v / whitelist %v before the tokens module's genesis export and import, %v / %v after", bs, ws, ba, wa), nil)
+				}
+			}
+		}
 	}
 	if s.setPoor {
 		// through the content handler of the SetPoorNetworkMessages proposal, as governance does it; what is stored must be
